@@ -457,8 +457,14 @@ class Builtins(object):
                 kk = it2.ctx.narrow(_s)
                 if kk != LIST:
                     raise PyRaise('AttributeError', ExcInst('AttributeError'))
-                # in-place mutation of a value that did not originate in this function
                 self.world.note_write(it2, _s, _n)
+                if _n == 'append' and len(a) == 1:
+                    # in-place: every alias of this list object sees the new item (Sym objects are the heap objects)
+                    try:
+                        _s.val = CON[LIST](z3.Concat(_s.pay(LIST), z3.Unit(to_val(a[0]))))
+                    except Unliftable as u:
+                        raise OutOfReach('append: %s' % u)
+                    return None
                 raise OutOfReach('in-place mutation of symbolic list (.%s)' % _n)
             return Builtin('list.' + name, mut2)
         if isinstance(base, datetime.datetime) and name in date_field or (isinstance(base, Sym) and name in date_field) \
